@@ -1,5 +1,6 @@
 import TunnoxModel.Proofs.C02
 import TunnoxModel.Proofs.C02Reattach
+import TunnoxModel.Proofs.C02RC
 /-!
 # C02 — a tunnel is a transparent, ordered, loss-free byte pipe between its ends
 
@@ -196,7 +197,8 @@ theorem skel_Start_sourceLoop :
 "installed forwarder" is one atomic cell; the race-detector build of the harness checks the rest). -/
 theorem skel_SetSourceConnection :
     Skel.Bridge_SetSourceConnection =
-      ["tunnelConnMu.Lock", "CreateDataForwarder", "sourceConnMu.Lock", "sourceConnMu.Unlock", "tunnelConnMu.Unlock"] := by
+      ["tunnelConnMu.Lock", "tunnelConnMu.Unlock", "CreateDataForwarder", "sourceConnMu.Lock", "sourceConnMu.Unlock",
+       "tunnelConnMu.Unlock"] := by
   decide
 theorem skel_dynamicSourceWriter :
     Skel.dynamicSourceWriter_Write = ["sourceConnMu.RLock", "sourceConnMu.RUnlock", "sourceForwarder.Write"] := by decide
@@ -291,6 +293,43 @@ example :
     (sourceLoop none [⟨[⟨[1, 2], none, false, 0⟩], 1⟩, ⟨[⟨[3], none, false, 0⟩, ⟨[4], some .fatal, false, 0⟩], 0⟩] [] {}).1.delivered
       = [1, 2, 3, 4] := by decide
 example : gensClean [⟨[⟨[1, 2], none, false, 0⟩], 1⟩, ⟨[⟨[3], none, false, 0⟩], 1⟩] = true := by decide
+
+/-- **Re-attachment, every interleaving**: for every schedule of the two copy goroutines and of
+re-attachments of the source end (any number of them, at any moment — also several during one copy,
+in which case the connections in between are never read), with any scripts, write scripts and
+limiter: the target has received one prefix of each source connection's stream, in attach order
+(nothing duplicated, reordered or taken out of turn); what the source connections have received is,
+in attach order, a prefix of what the target sent — all of it once the target's stream ended — and a
+direction that reached the end of the last installed connection's stream delivered all of it. -/
+theorem C02_reattach_concurrent (lim : Limiter) (g : List ReadEv) (gs : List (List ReadEv)) (tw sw : List WriteEv)
+    (tgt : List ReadEv) (evs : List REv) (b : RBridge) (hb : b = (RBridge.init lim g gs tw tgt sw).run evs) :
+    (∃ ps, Prefixes ps ((g :: gs).map allData) ∧ b.toTarget = ps.flatten) ∧
+    b.perSrc.flatten <+: allData tgt ∧
+    (b.tdir.stop = some .eof → b.perSrc.flatten = allData tgt) ∧
+    (b.sdir.stop = some .eof → b.sdir.st.delivered = allData b.now) := by
+  subst hb
+  have hinv := RInv_run tgt _ evs (RInv_init lim g gs tw tgt sw)
+  have hg := gens_run (RBridge.init lim g gs tw tgt sw) evs
+  generalize (RBridge.init lim g gs tw tgt sw).run evs = b at hinv hg
+  obtain ⟨h1, ⟨ps, hps, hdone⟩, h3, h4⟩ := hinv
+  have hgens : (g :: gs) = b.past ++ [b.now] ++ b.inst ++ b.future := by
+    rw [← RBridge.gens, hg]; simp [RBridge.gens, RBridge.init]
+  refine ⟨?_, ?_, ?_, DirInv_eof h1⟩
+  · refine ⟨ps ++ [b.sdir.st.delivered] ++ List.replicate ((b.inst ++ b.future).map allData).length [], ?_, ?_⟩
+    · rw [hgens]
+      simp only [List.map_append, List.map_cons, List.map_nil, List.append_assoc]
+      have := Prefixes_append (Prefixes_append hps (.cons (DirInv_prefix h1) .nil))
+        (Prefixes_nils ((b.inst ++ b.future).map allData))
+      simpa [List.append_assoc] using this
+    · simp [RBridge.toTarget, hdone, replicate_nil_flatten']
+  · rw [h4]; exact DirInv_prefix h3
+  · intro he; rw [h4]; exact DirInv_eof h3 he
+
+/-- A schedule in which the source re-attaches twice during the first copy: the middle connection is
+never read, the last one is (a test of the model). -/
+example :
+    ((RBridge.init none [⟨[1], none, false, 0⟩] [[⟨[2], none, false, 0⟩], [⟨[3], none, false, 0⟩]] [] [] []).run
+      [.attach, .attach, .s2t, .s2t, .s2t, .s2t]).toTarget = [1, 3] := by decide
 
 /-! ### Closure does not wait for the statistics backend -/
 
